@@ -34,7 +34,7 @@ RULE = ('kernel cases: (alpha_num, d_num, den) and (x, abs_err) rationals, rando
         'lookup on one pair (non-dyadic rational vs the double it rounds to and its neighbours, decimal value of a float vs the '
         'float, integers > 2^53, values beyond the double range; int/Fraction/time operands); tolerance mode on the 0.01 and '
         '0.001 decimal grids restricted to inputs whose answer depends on binary-exact end points, dyadic grids a/2^k +- b/2^k; '
-        '`conv`: constructor / from_float on rational types / module wrappers / str / repr / round(t, ndigits); `hashval`: hash of TimeType/mpq/Fraction/int/float of equal value incl. multiples of 2^61-1. '
+        '`conv`: constructor / from_float on rational types / module wrappers / str / repr / round(t, ndigits); `seq`: histories of 3-7 calls in one process (from_float of a float and of TimeType / mpq / Fraction / int objects that are == and hash-equal to it, modes None / 0 / tolerance alternating, arithmetic and == in between), each step judged alone; `disp` pow: every operand type as integer exponent of a time value and as (non-integral) base under an integer-valued time exponent; `powni`: non-integral exponents in both orders; `hashval`: hash of TimeType/mpq/Fraction/int/float of equal value incl. multiples of 2^61-1. '
         'Non-trivial = kernel case that enters the loop, operator case with a non-integer operand, float that is not an '
         'integer, operand type other than time/int; distinct = distinct canonical JSON of the case.')
 TRUSTED = [
@@ -414,6 +414,9 @@ def gen_round5(rng, tier, n):
         if abs(x) > 1e3 or (x == 0 and e < 0):
             x = 0.1
         cases.append({'kind': 'bin', 'op': 'pow', 't': str(e), 'other': {'ty': 'float', 'v': float(x).hex()}, 'swap': True})
+    for a in (None, 'int', 'empty', '0d'):      # array / 0: every element operation raises, so does the array operation
+        for op in ('div', 'mod', 'floordiv'):
+            cases.append({'kind': 'disp', 'op': op, 't': '0', 'v': {'k': 'array', 'v': a}, 'swap': True})
     # (c) non-integral exponents (not a field operation; the result is an approximation and must not pose as exact)
     for a in (F(9), F(4), F(2), F(1, 4), F(27, 8), F(10), F(0), F(1)):
         for ex in (F(1, 2), F(3, 2), F(1, 3), F(-1, 2), F(5, 4), F(2, 3)):
@@ -819,22 +822,27 @@ def search_failing(ctx, broken):
     return None
 
 MANIFEST = {
-    'level_text': 'Proof: approximate_rational and its integer kernel are re-translated from /repo on every run and proved '
-                  '(all inputs, unbounded) to terminate within lcm(xq, dq) iterations and to return the fraction of '
-                  'smallest denominator strictly inside the tolerance interval; the TimeType operator table and the operand '
-                  'dispatch (_converter / _try_from_any) are modelled over Q and tied to the code by an exact correspondence '
-                  'check on every operator x 25 operand types x order; Python\'s numeric hash (mod 2^61-1) is modelled and '
-                  'proved to depend only on the rational value and to agree with the int / float hash; the binary64 round '
-                  'trip float(from_float(x)) == x is proved with Flocq from two explicit CPython hypotheses, and the '
-                  'executable criterion evaluated per case is proved to imply Flocq\'s round-to-nearest-even.',
-    'level_note': 'Trusted: Coq kernel, translators, gmpy2.mpq exactness, repr(float) shortest-round-trip contract and '
-                  'correctly rounded int/int (hypotheses of the Flocq theorems), the per-type probe table, harness. Round 4: '
-                  'the executable rounding-interval criterion used by check_spec is proved against Flocq '
-                  '(C14_rounds_to_correct, C14_float_roundtrip_checked); the six comparisons are proved consistent in the '
-                  'model (C14_cmp_consistent) and the same laws are evaluated on the implementation. Not translated from the '
-                  'source: _try_from_any (modelled by hand, every path exercised by built objects) and the operator '
-                  'wrappers; the fast "no denominator <= 400" search of check_spec is compared with the brute-force '
-                  'definition on a sample only.',
+    'level_text': 'Proved (all inputs, unbounded): approximate_rational and its integer kernel, re-translated from /repo on '
+                  'every run, terminate within lcm(xq, dq) iterations and return the fraction of smallest denominator strictly '
+                  'inside the tolerance interval; the executable specification evaluated on every tolerance-mode observation '
+                  '(brute-force search) is sound w.r.t. that definition for results with denominator <= 400 (partial above: '
+                  'only "no denominator <= 400 inside"); the executable binary64 rounding-interval criterion evaluated per '
+                  'float implies Flocq\'s round-to-nearest-even, hence float(from_float(x)) == x given correctly rounded '
+                  'int/int; a model of CPython\'s numeric hash (mod 2^61-1) depends only on the rational value and agrees '
+                  'with the int / float hash. Tested only (exact correspondence check, implementation = specification on '
+                  'every generated input): that the TimeType operators, comparisons, rounding functions, hash, operand '
+                  'dispatch (_converter / _try_from_any) and from_float (all three modes, incl. the glue around '
+                  'approximate_rational) return the specified rational values; for the operator table the operational model '
+                  'IS the specification applied to the converted operands (gmpy2.mpq trusted exact), so the symmetry / '
+                  'Euclidean / order-consistency theorems are laws of the specification, not statements about the code.',
+    'level_note': 'Trusted: Coq kernel, translators, gmpy2.mpq exactness, repr(float) shortest-round-trip contract (hypothesis '
+                  'of C14_float_roundtrip; replaced per case by the proved criterion in C14_float_roundtrip_checked) and '
+                  'correctly rounded int/int, the per-type probe table, harness. Not translated from the source: '
+                  '_try_from_any (modelled by hand as a function of the answers an object gives; every path exercised by '
+                  'built objects), the operator wrappers, from_float. Round 5: histories (several calls in one process, '
+                  'each judged by the stateless specification), powers through the operand dispatch in both orders, '
+                  'non-integral exponents (result must approximate and must not pose as exact); check_spec calls no '
+                  'function of the operational model (Spec.v / Float64.v / documented_value only). No known findings.',
     'technique': 'Coq proof (Stern-Brocot invariant, modular arithmetic, Flocq) over AST-translated code + correspondence check',
     'design_ref': 'DESIGN.md §5 C14',
 }
